@@ -130,6 +130,10 @@ class Task(Awaitable[RT]):
                 # the Task pre-run because no time passes until we check that.
                 if delay is not None or at is not None:
                     await suspend(delay=delay, until=at)
+                    # cancelled in the time step of our start, but before our turn:
+                    # the payload has not started and must not run at all
+                    if self._cancellations:
+                        raise self._cancellations[0]
                 result = await self.payload
             except CancelTask as err:
                 assert (
